@@ -121,6 +121,23 @@ fn cause(defs: &[Def], code: u32, len: u8) -> String {
     String::new()
 }
 
+/// the guard of theorem `cmap_get_partial` (lean/LopdfModel/Thm/C15.lean, `separated` + `Def.wf`), written again here:
+/// every definition is well-formed, and every definition that is not single-unit overlaps no other definition
+/// and is not adjacent to one that is stored with an equal target
+fn in_proved_domain(defs: &[Def]) -> bool {
+    if !defs.iter().all(|d| d.well_formed()) { return false; }
+    for (i, d) in defs.iter().enumerate() {
+        for e in &defs[i + 1..] {
+            if d.is_single() && e.is_single() { continue; }
+            if d.len() != e.len() { continue; }
+            let overlap = d.lo() <= e.hi() && e.lo() <= d.hi();
+            let adjacent = d.hi() as u64 + 1 == e.lo() as u64 || e.hi() as u64 + 1 == d.lo() as u64;
+            if overlap || (adjacent && stored_of(d) == stored_of(e)) { return false; }
+        }
+    }
+    true
+}
+
 // ------------------------------------------------------------------ rendering
 
 fn hex_code(r: &mut Rng, code: u32, len: u8, upper: bool) -> String {
@@ -559,6 +576,9 @@ struct Stats { strict: bool, canonical: bool }
 
 fn check_case(c: &mut Ctx, r: &mut Rng, stream: &str, secs: &[Sec], st: Stats, simple_meta: bool) {
     let defs = flatten(secs);
+    // inside the domain of the theorem every failure is a violation, whatever the stream
+    let st = Stats { strict: st.strict || in_proved_domain(&defs), canonical: st.canonical };
+    c.count(if st.strict { "cases.in_proved_domain" } else { "cases.outside_proved_domain" });
     let text = if st.canonical { render_canonical(secs) } else { render(r, secs, simple_meta) };
     let queries = gen_queries(r, &defs);
     let inputs = gen_inputs(r, &defs);
